@@ -75,17 +75,19 @@ End Bridge.
 (* hypothesis A discharged for what GetAggregateCommit assembles from a valid pool (C06_assemble_accepts) *)
 From Coq Require Import Permutation.
 Lemma assembled_commit_accepted : forall (sigT msgT : Type) (sig_len0 : sigT -> bool) (msg_of : AggCommit.cert -> msgT)
-    (fav : list AggCommit.key -> msgT -> sigT -> bool) (vrf : AggCommit.key -> msgT -> sigT -> bool) (agg : list sigT -> sigT),
-  (forall ks ss m ks', Forall2 (fun k s => vrf k m s = true) ks ss -> ks <> [] -> Permutation ks ks' ->
+    (fav : list AggCommit.key -> msgT -> sigT -> bool) (vrf : AggCommit.key -> msgT -> sigT -> bool) (agg : list sigT -> sigT)
+    (key_ok : AggCommit.key -> Prop),
+  (forall ks ss m ks', Forall key_ok ks -> Forall2 (fun k s => vrf k m s = true) ks ss -> ks <> [] -> Permutation ks ks' ->
                        fav ks' m (agg ss) = true) ->
   (forall ss, sig_len0 (agg ss) = false) ->
   forall e g ng a h v,
-    AssembleProofs.params_wf e -> AssembleProofs.pool_ok sigT msgT msg_of vrf e (g ++ ng) ->
+    AssembleProofs.params_wf key_ok e -> AssembleProofs.pool_ok sigT msgT msg_of vrf e (g ++ ng) ->
     AggCommit.get_aggregate_commit agg e g ng = AggCommit.GOk a ->
     corresponds sigT msgT sig_len0 msg_of fav h v e a ->
     agg_commit_ok h v = true.
 Proof.
-  intros sigT msgT sig_len0 msg_of fav vrf agg Hbls Hlen e g ng a h v Hwf Hpool Hget Hc.
-  pose proof (AssembleProofs.assemble_accepts sigT msgT sig_len0 msg_of fav vrf agg Hbls Hlen e g ng Hwf Hpool) as H.
+  intros sigT msgT sig_len0 msg_of fav vrf agg key_ok Hbls Hlen e g ng a h v Hwf Hpool Hget Hc.
+  pose proof (AssembleProofs.assemble_accepts sigT msgT sig_len0 msg_of fav vrf agg key_ok Hbls Hlen e g ng Hwf Hpool) as H.
+  unfold AssembleProofs.good_result in H.
   rewrite Hget in H. eapply verify_accept_bridge; eassumption.
 Qed.
